@@ -201,12 +201,27 @@ def slope_cache(repo, run):
     rid = run.rule("C06.3", "cache-key discipline of the reused end slope: RungeKuttaIntegrator.__call__ may take final_rhs as the new initial_rhs only under a "
                             "comparison with the time AND state it was computed at (keys stored wherever final_rhs is stored); the splitting "
                             "integrator's final_rhs is recomputed in every call", floor=2)
-    call = repo.get(ITY, extract.RK + ".__call__")
+    for owner in (extract.RK, extract.SPLIT):
+        _keyed_reuse(repo, run, rid, owner)
+    sc = repo.get(ITY, extract.SPLIT + ".__call__")
+    run.analysed_fn(ITY, sc)
+    eng = Engine(FreshClient())
+    out = eng.run(sc, ["stale"])
+    bad = [s for (s, n) in out.ret if s != "fresh"]
+    run.judged(rid, "splitting __call__: final_rhs at return is %s" % sorted({s for (s, n) in out.ret}), ok=not bad)
+    if bad:
+        node = [st for st in walk_no_nested(sc) if isinstance(st, ast.If) and "final_rhs" in src(st.test)]
+        run.report("C06.3", ITY, node[0] if node else sc, "the splitting integrator computes final_rhs only when it is None and never invalidates it: every piece after the first "
+                                                          "ends with the slope of the FIRST step", text="splitting final_rhs computed once")
+
+
+def _keyed_reuse(repo, run, rid, owner):
+    call = repo.get(ITY, owner + ".__call__")
     run.analysed_fn(ITY, call)
     Q = [a.arg for a in call.args.args]
     reuse = [st for st in walk_no_nested(call) if isinstance(st, ast.Assign) and any(is_self_attr(t, "initial_rhs") for t in st.targets) and is_self_attr(st.value, "final_rhs")]
     if not reuse:
-        run.judged(rid, "RK __call__ does not reuse final_rhs", ok=True)
+        run.judged(rid, "%s.__call__ does not reuse final_rhs" % owner, ok=True)
     for st in reuse:
         guards = [a for a in ancestors(st) if isinstance(a, ast.If)]
         test_src = " and ".join(src(g.test) for g in guards)
@@ -221,15 +236,18 @@ def slope_cache(repo, run):
         ok = keyed_t and keyed_y
         run.judged(rid, "reuse `%s` guarded by: %s" % (src(st), test_src[:160]), ok=ok)
         if not ok:
-            run.report("C06.3", ITY, st, "the slope cached at the end of the previous step is reused as this step's start slope without checking that this step "
+            run.report("C06.3", ITY, st, ("[%s] " % owner) + "the slope cached at the end of the previous step is reused as this step's start slope without checking that this step "
                                          "starts at the time and state it was computed for (after a terminal event, a failure, a reset of the state by a "
                                          "callback, or a retried step the piece starts with a slope of another point)",
-                       text="unkeyed reuse: initial_rhs = final_rhs guarded by `%s`" % test_src[:120])
+                       text="%sunkeyed reuse: initial_rhs = final_rhs guarded by `%s`" % ("" if owner == extract.RK else "[splitting] ", test_src[:120]))
         else:
             # keys are stored wherever final_rhs is stored
-            step = repo.get(ITY, extract.RK + ".step")
+            step = repo.get(ITY, owner + ".step")
             P = [a.arg for a in step.args.args]
             c = Canon(rename=dict(zip(P, ["self", "rhs", "t0", "y0", "consts", "h"])))
+            if owner == extract.SPLIT:
+                step = call
+                c = Canon(rename=dict(zip(Q, ["self", "rhs", "t0", "y0", "consts", "h"])))
             ft = [s2 for s2 in walk_no_nested(step) if isinstance(s2, ast.Assign) and any(is_self_attr(t, "final_time") for t in s2.targets)]
             fy = [s2 for s2 in walk_no_nested(step) if isinstance(s2, ast.Assign) and any(is_self_attr(t, "final_state") for t in s2.targets)]
             okk = bool(ft) and bool(fy) and all(c.poly(s2.value) == T("t0 + self.dTime") for s2 in ft) and all(c.poly(s2.value) == T("y0 + self.dState") for s2 in fy)
@@ -239,17 +257,6 @@ def slope_cache(repo, run):
             if not okk:
                 run.report("C06.3", ITY, step, "the keys (final_time, final_state) the reuse is checked against are not stored as (t0 + dTime, y0 + dState) on every "
                                                "path of step() that stores final_rhs", text="cache keys of final_rhs")
-    sc = repo.get(ITY, extract.SPLIT + ".__call__")
-    run.analysed_fn(ITY, sc)
-    eng = Engine(FreshClient())
-    out = eng.run(sc, ["stale"])
-    bad = [s for (s, n) in out.ret if s != "fresh"]
-    run.judged(rid, "splitting __call__: final_rhs at return is %s" % sorted({s for (s, n) in out.ret}), ok=not bad)
-    if bad:
-        node = [st for st in walk_no_nested(sc) if isinstance(st, ast.If) and "final_rhs" in src(st.test)]
-        run.report("C06.3", ITY, node[0] if node else sc, "the splitting integrator computes final_rhs only when it is None and never invalidates it: every piece after the first "
-                                                          "ends with the slope of the FIRST step", text="splitting final_rhs computed once")
-
 
 # ------------------------------------------------------------------------------------------------
 def containers(repo, run):
